@@ -11,13 +11,14 @@
      ` ARR!`        the CONTENTS of the built-in crystal array (entries, names, atoms, counts) differ from before the call
      ` FDS:<a>><b>` the number of open file descriptors (0..63) was a before the call and is b after it (every call, not only the file ops)
      ` APP!<probe>:<detail>`  a piece of C-library state that the APPLICATION has in progress across the call was disturbed by it (see "hidden
-                    cursors" below): strtok, rand, lrand48, getenv, tm (localtime/gmtime buffer), asctime, tmpnam, strerror, getopt, stdin, stdout, lconv
+                    cursors" below): strtok, rand, lrand48, getenv, tm (localtime/gmtime buffer), asctime, tmpnam, strerror, getopt, stdin, stdout, lconv,
+                    uselocale / threadlocale (the calling thread's own locale object: see XRLV_THREAD_LOCALE below)
    errno is carried from the end of one op to the start of the next (what the harness itself does in between — observers, protocol output —
    is invisible to the library, as in an application that makes the calls back to back); a process without history starts with errno = 0.
    Directives in <ops>:
      !state     S <LC_ALL locale string> | <LC_NUMERIC> | <cwd> | <FNV-1a of every data region> | <every locale category> |
                   <process state: hash of environ, sigaction of eight signals, signal mask, rounding mode, open descriptors, umask> |
-                  <observations, NOT compared: errno as the last op left it, floating-point exception flags>
+                  <observations, NOT compared: errno as the last op left it, floating-point exception flags, tl=global|own|other:<CODESET of the thread's locale>>
      !snapshot  keep a copy of every data region
      !diff      D <address> <old byte> <new byte>  for the first bytes that differ from the snapshot
      !end       verify every retained object (error objects, crystal copies, compound data) against the
@@ -108,7 +109,23 @@ static const char *env_p; static char env_snap[64];
 static struct tm *tm_p; static struct tm tm_snap; static char *asc_p, asc_snap[64], *tmpnam_p, tmpnam_snap[L_tmpnam + 1], *serr_p, serr_snap[128];
 static int opt_snap[3]; static char *optarg_snap; static long stdin_pos; static off_t stdin_off; static size_t out_bufsize; static int out_lbf;
 static char lconv_snap[16];
+/* The calling thread's OWN locale.  setlocale() speaks about the process locale only; a thread that has installed a locale object of its own with
+   uselocale() — every thread of a program that formats numbers for a user while another thread parses files does — keeps it in a hidden per-thread
+   slot of the C library.  With XRLV_THREAD_LOCALE=<name> in the environment the harness is that thread: before the history it installs
+   uselocale(newlocale(LC_ALL_MASK, <name>, 0)) (in `fresh` mode before the fork: the child inherits it); after EVERY op the slot must still hold that very
+   handle and the object must still answer nl_langinfo(CODESET / RADIXCHAR / THOUSEP) as it did (newlocale(mask, name, base) MODIFIES base).  Without the
+   variable the slot must stay LC_GLOBAL_LOCALE: a call that leaves a locale object of its own installed has changed the thread's locale as well. */
+#include <langinfo.h>
+static locale_t app_loc = (locale_t)0; static char tl_snap[96];
+static void tl_render(char *b, size_t n) { snprintf(b, n, "%s|%s|%s", nl_langinfo(CODESET), nl_langinfo(RADIXCHAR), nl_langinfo(THOUSEP)); }
+static void tl_arm(void) {
+  const char *nm = getenv("XRLV_THREAD_LOCALE");
+  if (nm && *nm) { app_loc = newlocale(LC_ALL_MASK, nm, (locale_t)0); if (app_loc == (locale_t)0) app_loc = newlocale(LC_ALL_MASK, "C", (locale_t)0); }
+  if (app_loc != (locale_t)0) uselocale(app_loc);
+  tl_render(tl_snap, sizeof tl_snap);
+}
 static void app_arm(void) {
+  tl_arm();
   int k = 0; tok_off[0] = 0;
   for (int i = 0; ; i++) { if (TOK_TEXT[i] == ' ' || !TOK_TEXT[i]) { tok_len[k] = i - tok_off[k]; k++; if (!TOK_TEXT[i] || k == NTOK) break; tok_off[k] = i + 1; } }
   tok_arm(); seq_arm();
@@ -132,7 +149,18 @@ static void app_mark(char *out, size_t cap, const char *fmt, ...) {
   va_list ap; va_start(ap, fmt); vsnprintf(out + n, cap - n, fmt, ap); va_end(ap);
   for (char *q = out + n + 1; *q; q++) if (*q == ' ' || *q == '\n') *q = '_';
 }
+static void tl_check(char *out, size_t cap) {
+  locale_t want = app_loc != (locale_t)0 ? app_loc : LC_GLOBAL_LOCALE, now = uselocale((locale_t)0);
+  if (now != want) {
+    app_mark(out, cap, " APP!uselocale:the-calling-thread's-locale-was-%s,after-the-call-uselocale(0)-returns-%s", app_loc != (locale_t)0 ? "the-object-the-application-installed-with-uselocale()" : "LC_GLOBAL_LOCALE",
+             now == LC_GLOBAL_LOCALE ? "LC_GLOBAL_LOCALE(the-process-locale)" : "another-locale-object");
+    uselocale(want);
+  }
+  char b[96]; tl_render(b, sizeof b);
+  if (strcmp(b, tl_snap)) { app_mark(out, cap, " APP!threadlocale:nl_langinfo(CODESET|RADIXCHAR|THOUSEP)-through-the-calling-thread's-locale-%s->%s", tl_snap, b); tl_render(tl_snap, sizeof tl_snap); }
+}
 static void app_check(char *out, size_t cap) {
+  tl_check(out, cap);
   /* strtok: the next token of the application's own tokenisation */
   { char *p = strtok(NULL, " "); int want = tok_next;
     const char *exp = (want >= 0 && want < NTOK) ? tok_buf + tok_off[want] : NULL;
@@ -181,7 +209,8 @@ static void do_state(void) {
   for (size_t i = 0; i < sizeof cats / sizeof *cats && n < sizeof lc; i++) { const char *v = setlocale(cats[i], NULL); n += (size_t)snprintf(lc + n, sizeof lc - n, "%s%s=%s", i ? "," : "", catn[i], v ? v : "(null)"); }
   char ps[1024]; process_state(ps, sizeof ps);
   int fe = fetestexcept(FE_ALL_EXCEPT);
-  printf("S %s | %s | %s | %016llx | %s | %s | obs errno=%d fe=%x\n", lall, lnum, getcwd(cwd, sizeof cwd) ? cwd : "?", (unsigned long long)hash_regions(), lc, ps, errno_carry, (unsigned)fe);
+  printf("S %s | %s | %s | %016llx | %s | %s | obs errno=%d fe=%x tl=%s:%s\n", lall, lnum, getcwd(cwd, sizeof cwd) ? cwd : "?", (unsigned long long)hash_regions(), lc, ps, errno_carry, (unsigned)fe,
+         uselocale((locale_t)0) == LC_GLOBAL_LOCALE ? "global" : (app_loc != (locale_t)0 && uselocale((locale_t)0) == app_loc) ? "own" : "other", nl_langinfo(CODESET));
 }
 /* per-call observers: the locale (all categories) and the contents of the built-in crystal array */
 static char loc_seen[1024]; static uint64_t arr_seen; static int fds_seen;
